@@ -48,6 +48,10 @@ class ZONEINFO(TZProvider):
         except ValueError:
             # ValueError: ZoneInfo keys may not be absolute paths, got: /Europe/CUSTOM
             pass
+        except OSError:
+            # IsADirectoryError: the key is a directory of the database (Europe)
+            # OSError: File name too long
+            pass
 
     def knows_timezone_id(self, id: str) -> bool:
         """Whether the timezone is already cached by the implementation."""
